@@ -36,6 +36,9 @@ SESSION_ASSUME = [
 
 
 def session_plan(level_rule, mins_quick, mins_thorough, extra_stages=None):
+    # minimum counts were calibrated at 24k / 1M sessions; the budgets are now 160k / 4M
+    mins_quick = {k: v * 6 for k, v in mins_quick.items()}
+    mins_thorough = {k: v * 4 for k, v in mins_thorough.items()}
     return {
         "level": "exploration",
         "rule": level_rule,
@@ -97,7 +100,7 @@ _SESSION_NOTE = ("Trusted base: the harness (reference models, terminal emulator
 MANIFEST_TEXT = {
     "C01": {"technique": "runtime monitoring: lockstep reference tokenizer/classifier + exactly-once dispatch monitor on handler log, hooked line and sink tail per Enter",
             "design_ref": "DESIGN.md §6 C01",
-            "text": "Held on every Enter of ~2.4e4 (quick) / 1e6 (thorough) seeded random editing sessions incl. recall, completion, inside-inserts, multi-byte characters, buffer sizes 0..64; exploration only, no claim beyond the sessions run.",
+            "text": "Held on every Enter of 1.6e5 (quick) / 4e6 (thorough) seeded random editing sessions incl. recall, completion, inside-inserts, multi-byte characters, buffer sizes 0..64; exploration only, no claim beyond the sessions run.",
             "note": _SESSION_NOTE},
     "C05": {"technique": "runtime monitoring: ideal Vec<char> editor in lockstep with the hooked editor state after every byte; state-space closure of the real Editor in small buffers",
             "design_ref": "DESIGN.md §6 C05",
